@@ -667,4 +667,20 @@ theorem resid_sq_expand (g c : Rat) (l : List Pt) :
     rw [ih]
     ring
 
+/-! ### sessions -/
+
+theorem finalState_append (o : Fit) (a b : List Step) :
+    finalState o (a ++ b) = finalState (finalState o a) b := by
+  induction a generalizing o with
+  | nil => rfl
+  | cons s l ih => simp only [List.cons_append, finalState, ih]
+
+theorem run_append (o : Fit) (a b : List Step) :
+    run o (a ++ b) = run o a ++ run (finalState o a) b := by
+  induction a generalizing o with
+  | nil => rfl
+  | cons s l ih =>
+    simp only [List.cons_append, run, finalState]
+    cases (step o s).2 <;> simp [ih]
+
 end Pew.Calib
